@@ -1,18 +1,35 @@
 CHECK = {
     "level": "model_checking",
     "rule": ("explicit enumeration of ALL histories up to depth D (quick 2, thorough 3) over the alphabet "
-             "{run event e in {0,1,2} to completion after reseed; run event e in {0,2} for k in {1,3} "
-             "steps, abandon, reset_state(); warm_up()} on one Stepper, each followed by probing events "
-             "0,1,2; configuration lattice: track order {none + 6 re-indexing orders} x action_times x "
-             "StatusChecker x slots {2,8} x along-step {linear+MSC+fluctuation, field+MSC+fluctuation}, rotated-"
-             "daughter geometry, 3 primaries (gamma, e-, e+) per event; interaction outcomes are a fixed "
-             "function of (event, track, step, particle, energy). Oracle: per-track step history hash of "
-             "every completed event == the same event on a fresh state with TrackOrder::none. "
-             "non-trivial = a non-empty history."),
+             "{E<e>: run event e in {0,1,2} to completion after reseed; A<e>.<k>: run event e in {0,2} for "
+             "k in {1,3} Stepper calls, abandon it between two calls, reset_state(); X: abort the event BY "
+             "AN EXCEPTION in the middle of a step, then reset_state() - a user action throwing at its "
+             "n-th invocation at user_post (X0.2.post, X2.4.post: killed slots / pending secondaries) or "
+             "user_start (X2.2.start: initializing slots), or the n-th interaction throwing inside the "
+             "interaction kernel (X0.2.int); V: a Stepper call with the invalid event id max_events "
+             "(rejected), reset_state(); W: warm_up() as first letter} on one Stepper, each history "
+             "followed by probing events 0,1,2; configuration lattice: track order {none + 6 re-indexing "
+             "orders} x action_times x StatusChecker x slots {1,2,8} x along-step {linear+MSC+fluctuation, "
+             "field+MSC+fluctuation} x geometry {g1 box-in-box (single universe), g3 rotated-daughter "
+             "universe (two levels)} (quick: timing/checker both off or both on; field+g1 with slots "
+             "1,2,8, the other three (along-step, geometry) pairs with 2 slots); 3 primaries (gamma, e-, e+) per event, with a "
+             "field a 4th one: a 0.2 MeV e- in the vacuum world perpendicular to B whose first step is "
+             "already a looping step; interaction outcomes are a fixed function of (event, track, step, "
+             "particle, energy). Oracle, for every completed event: (1) per-track step history hash, "
+             "(2) StepperResult sequence (generated, active, alive, queued of every call), (3) tallies "
+             "cleared before the event: SimpleCalo energy per volume (the real SimpleCalo fed from the "
+             "recorder's step state), ActionDiagnostic and StepDiagnostic tables - each bit-identical to "
+             "the same event on a fresh state with the same slot count, TrackOrder::none, no timing, no "
+             "checker. non-trivial = a non-empty history."),
     "assumptions": [
         "same slot count for reference and test (the property's precondition)",
         "per-track comparison: delivery order within a step is not compared",
-        "scripted physics: RNG is consumed by interaction-length sampling and loss fluctuations",
+        "scripted physics: RNG is consumed by interaction-length sampling, MSC and loss fluctuations",
+        "an exception thrown by a user action or an interaction kernel, or the rejection of an invalid "
+        "event id, followed by Stepper::reset_state() is taken as the statement's 'aborted event followed "
+        "by a state reset'",
+        "the calorimeter is compared bit for bit: it accumulates per detector in track-slot order, which "
+        "does not depend on the re-indexing order",
     ],
     "bounds": {"quick": {"history_depth": 2}, "thorough": {"history_depth": 3}},
     "parts": [
